@@ -8,9 +8,13 @@ V: real AndContour / OrContour computations; the loop's hook events (VIROCON_VER
    sample must be within tolerance unless the warning was raised; whether every ray's event
    sequence is a behaviour of the search spec (start, step recurrence, continue/stop decisions,
    cap) is reported as conformance in the evidence, not as a verdict.
+   Input classes besides the numbers: type of alpha / deg_step (Python, np.float64, np.float32),
+   container and layout of the supplied sample, samples with exact ties on searched coordinates
+   (zero-inflated variables, rounded observations) - 'exceeding' is strict.
 """
 import math
 import warnings
+from fractions import Fraction
 
 import numpy as np
 
@@ -66,9 +70,64 @@ def thetas_nominal(lo, hi, step):
     return [lo + i * step for i in range(max(k, 0))]
 
 
+def alpha_object(case):
+    """The alpha handed to the code: Python float, np.float64 or np.float32 (which is ANOTHER real
+    number than a / b, off by up to 6e-8 relative)."""
+    a, b = case["alpha"]
+    t = case.get("atype", "float")
+    return np.float32(a / b) if t == "float32" else np.float64(a / b) if t == "float64" else a / b
+
+
+def step_object(case):
+    t = case.get("stype", "int")
+    return np.float32(case["step"]) if t == "float32" else float(case["step"]) if t == "float" else case["step"]
+
+
+def tie_sample(sample, case, rng):
+    """Sample classes with exact ties ON the coordinates a search visits (the theta = 0 ray has
+    vy = 0 exactly; a lattice sample meets lattice coordinates): zero-inflated variables (calms,
+    censored records) and heavily rounded observations."""
+    t = case.get("tiecls", "none")
+    if t == "none":
+        return sample
+    sample = np.array(sample, dtype=float)
+    n = len(sample)
+    if t.startswith("round"):
+        grid = {"round1": 1.0, "round05": 0.5}[t]
+        return np.round(sample / grid) * grid
+    frac = float(rng.uniform(0.03, 0.3))
+    if t in ("zero_y", "zero_xy"):
+        sample[rng.random(n) < frac, 1] = 0.0
+    if t in ("zero_x", "zero_xy"):
+        sample[rng.random(n) < frac, 0] = 0.0
+    return sample
+
+
+def contain(sample, cont):
+    if cont == "dataframe":
+        import pandas as pd
+        return pd.DataFrame(sample, columns=["hs", "tz"])
+    if cont == "list":
+        return sample.tolist()
+    if cont == "float32":
+        return sample.astype(np.float32)
+    return sample
+
+
+def same_decisions(counts, n, a, b, en, ed, alpha_true):
+    """The tolerance test of every count is the same for alpha = a / b and for the real number
+    alpha_true (a single-precision alpha), in exact arithmetic."""
+    e = Fraction(en, ed)
+    for c in set(counts):
+        pe = Fraction(c, n)
+        if (abs(pe - Fraction(a, b)) / Fraction(a, b) <= e) != (abs(pe - alpha_true) / alpha_true <= e):
+            return False
+    return True
+
+
 def one_contour(vc, rid, case, model):
     a, b = case["alpha"]
-    alpha = a / b
+    alpha = alpha_object(case)
     en = case["err"]
     mode = case["mode"]
     rng = np.random.default_rng(case["seed"])
@@ -78,12 +137,15 @@ def one_contour(vc, rid, case, model):
         sample = model.draw_sample(n, random_state=rng)
         if case["ties"]:
             sample = np.round(sample, 1)
+        sample = tie_sample(sample, case, rng)
         # memory layout of the caller's array is an input class: column-major arrays are what
         # DataFrame.values / np.array([x, y]).T hand over, and their column views are contiguous
         if case.get("layout") == "F":
             sample = np.asfortranarray(sample)
         elif case.get("layout") == "T":
             sample = np.array([sample[:, 0].copy(), sample[:, 1].copy()]).T
+        # ... and so is the container: DataFrame (what the dataset readers return), list of rows, float32 array
+        sample = contain(sample, case.get("cont", "ndarray"))
     sink = []
     hooked = False
     try:
@@ -93,14 +155,20 @@ def one_contour(vc, rid, case, model):
     except Exception:  # hooks absent: API-level judgement only
         _verif = None
     np.random.seed(case["seed"] % (2**32))
-    kw = dict(alpha=alpha, deg_step=case["step"], sample=sample, allowed_error=en / 1000)
+    kw = dict(alpha=alpha, deg_step=step_object(case), sample=sample, allowed_error=en / 1000)
     if not case["supply"]:
         kw["n"] = None if case["defaultn"] else n
     if mode == "or":
         kw.update(lowest_theta=case["range"][0], highest_theta=case["range"][1])
+    dyadic = case.get("atype", "float") == "float32"
+    alpha_true = Fraction(float(alpha))
     rec = dict(id=rid, mode=mode, a=a, b=b, en=en, ed=1000, exc="", tie=False, hooked=False, n=0,
-               thetas=[], rays=[], coords=[], ptcount=[], ptangle=[], nwarn=0, xmaxc=0, ymaxc=0)
-    samp0 = None if sample is None else np.array(sample, order="C", copy=True)
+               thetas=[], rays=[], coords=[], ptcount=[], ptangle=[], nwarn=0, xmaxc=0, ymaxc=0,
+               defaultn=bool(case["defaultn"] and not case["supply"]), dyadic=dyadic,
+               nref=int((100 / alpha_true).__floor__()) if dyadic else 0, ptties=[])
+    # the observations as the caller supplied them, in double precision (a float32 array compared
+    # with a Python float would be compared in single precision)
+    samp0 = None if sample is None else np.array(sample, dtype=float, order="C", copy=True)
     exc = ""
     contour = None
     with warnings.catch_warnings(record=True) as wl:
@@ -116,16 +184,17 @@ def one_contour(vc, rid, case, model):
     rec["exc"] = exc
     rec["nwarn"] = sum(1 for w in wl if issubclass(w.category, UserWarning) and "required precision" in str(w.message))
     if sample is None and contour is not None:
-        sample = contour.sample
+        sample = np.asarray(contour.sample, dtype=float)
     if sample is None:
         # the sample was drawn inside a constructor that raised: nothing can be re-measured.
         # OrContour raises IndexError when every ray result lies beyond 1.1 * max(sample)
         # (no statement of C04 covers that); the record is not judged.
+        rec["defaultn"] = False
         if mode == "or" and exc == "IndexError":
             rec["tie"] = True
             rec["exc"] = ""
         return rec
-    if samp0 is not None and not np.array_equal(samp0, sample):
+    if samp0 is not None and not np.array_equal(samp0, np.asarray(sample)):
         rec["exc"] = "SampleMutated"
     if samp0 is not None:
         sample = samp0          # exceedances are judged on the observations the caller supplied
@@ -136,9 +205,16 @@ def one_contour(vc, rid, case, model):
         raise Machinery("case exceeds 32-bit budget")
 
     def cnt(vx, vy):
+        """'exceeding' is STRICT: an observation equal to the point's coordinate does not exceed it"""
         if mode == "and":
             return int(np.logical_and(x > vx, y > vy).sum())
         return int(np.logical_or(x > vx, y > vy).sum())
+
+    def cnt_ge(vx, vy):
+        """the count with ties included (not a clause: shows where strictness decides)"""
+        if mode == "and":
+            return int(np.logical_and(x >= vx, y >= vy).sum())
+        return int(np.logical_or(x >= vx, y >= vy).sum())
 
     lo, hi = (0, 90) if mode == "and" else case["range"]
     rec["thetas"] = [Q(t, 1e6) for t in thetas_nominal(lo, hi, case["step"])]
@@ -171,9 +247,19 @@ def one_contour(vc, rid, case, model):
         ns = len(c) - (1 if mode == "and" else 3)
         rec["ptcount"] = [cnt(p[0], p[1]) for p in c[:max(ns, 0)]]
         rec["ptangle"] = [Q(math.degrees(math.atan2(p[1], p[0])), 1e6) for p in c[:max(ns, 0)]]
-        if case["defaultn"] and not case["supply"] and nn != int(100 / alpha):
-            rec["exc"] = "DefaultSampleSize"
+        rec["ptties"] = [cnt_ge(p[0], p[1]) - k for p, k in zip(c[:max(ns, 0)], rec["ptcount"])]
+    if dyadic:
+        counts = list(rec["ptcount"]) + [r_.get("recount", 0) for r_ in rays] + [it["count"] for r_ in rays for it in r_["iters"][-1:]]
+        if not same_decisions(counts, nn, a, b, en, 1000, alpha_true):
+            rec["tie"] = True       # a / b does not stand for this single-precision alpha here: not judged
     return rec
+
+
+ATYPES = ("float", "float32", "float64")
+STYPES = ("int", "float", "float32")
+CONTS = ("ndarray", "dataframe", "list", "float32")
+TIECLS = ("none", "zero_y", "none", "zero_x", "none", "round1", "zero_y", "none", "zero_xy", "none", "round05",
+          "none", "zero_y", "none")
 
 
 def gen_cases(ctx):
@@ -193,12 +279,27 @@ def gen_cases(ctx):
                         ties=bool(rng.integers(0, 4) == 0), range=OR_RANGES[int(rng.integers(0, len(OR_RANGES)))],
                         model=int(rng.integers(0, 3)), seed=int(rng.integers(0, 2**31)),
                         layout=("C", "F", "T", "C")[(t // 5) % 4] if supply else "C"))
+    # argument types, container and tie class of the sample (drawn separately: the cases above stay as they
+    # were); the default-n cases rotate through the alpha types against the rotation of the alphas
+    rng2 = np.random.default_rng([ctx.seed + 4, 1])
+    for t, c in enumerate(out):
+        c["atype"] = ATYPES[(t // 10 + t) % 3] if c["defaultn"] else ATYPES[int(rng2.integers(0, 3))]
+        c["stype"] = STYPES[int(rng2.integers(0, 3))]
+        k = int(rng2.integers(0, len(CONTS)))
+        u = int(rng2.integers(0, len(TIECLS)))
+        if c["supply"]:
+            c["tiecls"] = TIECLS[u]
+            c["cont"] = CONTS[k] if c["layout"] == "C" else "ndarray"
+        else:
+            c["tiecls"], c["cont"] = "none", "ndarray"
     return out
 
 
 def key_of(c):
     return (f"{c['mode']} model={c['model']} alpha={c['alpha'][0]}/{c['alpha'][1]} err={c['err']}/1000 step={c['step']} "
-            f"n={c['n']} supply={c['supply']} defaultn={c['defaultn']} ties={c['ties']} layout={c.get('layout', 'C')} range={c['range']} seed={c['seed']}")
+            f"n={c['n']} supply={c['supply']} defaultn={c['defaultn']} ties={c['ties']} layout={c.get('layout', 'C')} range={c['range']} seed={c['seed']}"
+            f" alpha_type={c.get('atype', 'float')} deg_step_type={c.get('stype', 'int')} sample_as={c.get('cont', 'ndarray')}"
+            f" tie_class={c.get('tiecls', 'none')}")
 
 
 def judge(ctx, vc, cases):
@@ -218,13 +319,21 @@ def judge(ctx, vc, cases):
 def run(ctx):
     vc = import_virocon()
     ctx.rule = ("seeded cases over mode x 3 models x alpha=a/b x allowed_error=e/1000 x deg_step x n x supplied/drawn sample x "
-                "rounded (tied) samples x OR theta ranges; distinct = case tuple; non-trivial = contour computed, more than "
+                "rounded (tied) samples x OR theta ranges x type of alpha (float, np.float64, np.float32) x type of deg_step "
+                "(int, float, np.float32) x container of the supplied sample (ndarray in three memory layouts, pandas DataFrame, "
+                "list of rows, float32 array) x tie class of the supplied sample (none, zero-inflated second / first / both "
+                "variables with 3-30 % exact zeros, rounded to 1 or 0.5); distinct = case tuple; non-trivial = contour computed, more than "
                 "the closing points returned, no 1e-6 tie at the OR range limit")
     ctx.trusted = ["TLC evaluating spec/AndOrOps.tla (exact rational tolerance test)",
-                   "harness re-measurement of exceedance counts on the sample with > and logical and/or",
+                   "harness re-measurement of exceedance counts on the sample as supplied (double precision) with STRICT > "
+                   "and logical and/or",
+                   "fractions.Fraction: floor(100 / alpha) of a single-precision alpha; equality of the tolerance decisions "
+                   "for a/b and for the single-precision alpha",
                    "hook events in AndContour/OrContour (guarded by VIROCON_VERIF); bound to truth by recounting at the logged vector"]
     ctx.assumptions = ["if the tolerance test is an exact tie in rational arithmetic either loop decision is accepted (float rounding)",
-                       "without hook events only the API-level clauses are judged (recorded per record as hooked=false)"]
+                       "without hook events only the API-level clauses are judged (recorded per record as hooked=false)",
+                       "a single-precision alpha is judged with its nominal a/b; records where a tolerance decision differs "
+                       "between the two numbers in exact arithmetic are not judged (counted in the notes)"]
     ctx.model_check("AndOrSearch", ctx.pick("MC_AndOrSearch_quick.cfg", "MC_AndOrSearch_thorough.cfg"),
                     must_cover=("Iterate", "Emit"), timeout=3000)
     ctx.model_check("AndOrSearch", "MC_AndOrSearch_mut.cfg", expect_violation="PointIsLastEvaluated")
@@ -240,6 +349,16 @@ def run(ctx):
         ctx.assumptions.append("NO hook events were seen in this run: step-level validation degraded to API-level")
     if nwarned == 0:
         raise Machinery("vacuity: no case exercised the max-iteration warning path")
+    tied = [r for r in recs if r["exc"] == "" and not r["tie"] and any(k > 0 for k in r["ptties"])]
+    ctx.notes.update(contours_with_a_point_tied_with_observations=len(tied),
+                     of_these_and_contours=sum(1 for r in tied if r["mode"] == "and"),
+                     points_tied_with_observations=sum(1 for r in tied for k in r["ptties"] if k > 0),
+                     single_precision_alpha_contours=sum(1 for r in recs if r["dyadic"]),
+                     single_precision_alpha_not_judged=sum(1 for r in recs if r["dyadic"] and r["tie"]),
+                     default_n_contours=sum(1 for r in recs if r["defaultn"]))
+    if not any(r["mode"] == "and" for r in tied):
+        raise Machinery("vacuity: no AND contour point had a coordinate tied with observations (strictness of "
+                        "'exceeding' was not exercised)")
     r0 = recs[0]
     ctx.sample({"case": key_of(cases[0]), "first_ray": r0["rays"][:1], "coords": r0["coords"][:4], "nwarn": r0["nwarn"]})
     # binding self-test: corrupt one count in one recorded event -> must be rejected
@@ -252,6 +371,15 @@ def run(ctx):
     rej = ctx.validate("Trace_C04", "Trace_C04.cfg", [bad], xss="256m")
     if not rej.get(1):
         raise Machinery("self-test: corrupted event count was not rejected")
+    # ... and a default sample size that is one too large (what 100 / alpha in single precision yields)
+    for dy in (False, True):
+        src = next((r for r in recs if r["defaultn"] and r["dyadic"] == dy and r["exc"] == ""), None)
+        if src is None:
+            raise Machinery(f"vacuity: no default-n contour with dyadic={dy}")
+        bad = copy.deepcopy(src)
+        bad.update(id=1, n=src["n"] + 1)
+        if "DefaultSampleSize" not in ctx.validate("Trace_C04", "Trace_C04.cfg", [bad], xss="256m").get(1, []):
+            raise Machinery("self-test: a default sample size off by one was not rejected")
     # growth module (DESIGN section 7 item 3): grid bookkeeping of the highest density contour
     from . import ext_hdcgrid
     ext_hdcgrid.run_ext(ctx, vc)
